@@ -187,9 +187,6 @@ impl Var {
     }
 
     pub fn store(&mut self, var_name: &Rc<str>, value: Val) -> Result<()> {
-        if self.vars.len() > u16::max_value() as usize {
-            return Err(error!(OutOfMemory));
-        }
         if var_name.ends_with('!') {
             self.insert_single(var_name, value)
         } else if var_name.ends_with('#') {
@@ -213,7 +210,7 @@ impl Var {
         }
     }
 
-    fn update_val(&mut self, var_name: &Rc<str>, value: Val) {
+    fn update_val(&mut self, var_name: &Rc<str>, value: Val) -> Result<()> {
         if match &value {
             Val::String(s) => s.is_empty(),
             Val::Integer(n) => *n == 0,
@@ -226,10 +223,15 @@ impl Var {
             match self.vars.get_mut(var_name) {
                 Some(var) => *var = value,
                 None => {
+                    // Only a new value needs a free slot.
+                    if self.vars.len() > u16::max_value() as usize {
+                        return Err(error!(OutOfMemory));
+                    }
                     self.vars.insert(var_name.clone(), value);
                 }
             };
         }
+        Ok(())
     }
 
     fn insert_string(&mut self, var_name: &Rc<str>, value: Val) -> Result<()> {
@@ -238,8 +240,7 @@ impl Var {
                 if s.chars().count() > 255 {
                     return Err(error!(StringTooLong; "MAXIMUM STRING LENGTH IS 255"));
                 }
-                self.update_val(var_name, value);
-                Ok(())
+                self.update_val(var_name, value)
             }
             _ => Err(error!(TypeMismatch)),
         }
@@ -250,7 +251,6 @@ impl Var {
             Val::Integer(_) => self.update_val(var_name, value),
             _ => self.update_val(var_name, Val::Integer(i16::try_from(value)?)),
         }
-        Ok(())
     }
 
     fn insert_single(&mut self, var_name: &Rc<str>, value: Val) -> Result<()> {
@@ -258,7 +258,6 @@ impl Var {
             Val::Single(_) => self.update_val(var_name, value),
             _ => self.update_val(var_name, Val::Single(f32::try_from(value)?)),
         }
-        Ok(())
     }
 
     fn insert_double(&mut self, var_name: &Rc<str>, value: Val) -> Result<()> {
@@ -266,7 +265,6 @@ impl Var {
             Val::Double(_) => self.update_val(var_name, value),
             _ => self.update_val(var_name, Val::Double(f64::try_from(value)?)),
         }
-        Ok(())
     }
 }
 
